@@ -118,6 +118,36 @@ def rule_M1(ctx):
                     n += 1
                     ok = (ev[c][name] & vals[(c, 'OUT_MASK')]) == (ev[c][name] & OUT_MASK)
                     res.ob(ok, None)
+    # (e) the line initialisers of the sibling classes force the same always-available outputs
+    forced = {}
+    for cls in ('GeodesicLine', 'GeodesicLineExact'):
+        fs = ctx.prog.fn(NS + cls + '::LineInit')
+        if not fs:
+            raise AnalysisBroken('anchor vanished: %s::LineInit' % cls)
+        f = fs[0]
+        fl = Flow(f)
+        env = fl.env_in.get(f.cfg['exit'], {})
+        bv = env.get('this._caps')
+        if bv is None:
+            raise AnalysisBroken('%s::LineInit does not assign _caps on every path' % cls)
+        forced[cls] = {k for k in range(16) if bv.bits[k] == TRUE}
+    n += 1
+    ok = forced['GeodesicLine'] == forced['GeodesicLineExact']
+    want = set()
+    for nm in ('LATITUDE', 'AZIMUTH', 'LONG_UNROLL'):
+        want |= {k for k in range(16) if (ref[nm] >> k) & 1 and (1 << k) & OUT_MASK}
+    res.ob(ok, {'forced_caps': {c: sorted(v) for c, v in forced.items()}})
+    if not ok:
+        res.fail('GeodesicLineExact', 'LineInit::_caps', '', 'GeodesicLine::LineInit forces capability bits %s but '
+                 'GeodesicLineExact::LineInit forces %s: the same request is answered by one kind of line and silently '
+                 'dropped by the other' % (sorted(forced['GeodesicLine']), sorted(forced['GeodesicLineExact'])))
+    for cls in forced:
+        n += 1
+        ok = want <= forced[cls]
+        res.ob(ok, {'class': cls, 'always_allowed': sorted(want), 'forced': sorted(forced[cls])})
+        if not ok:
+            res.fail(cls, 'LineInit::_caps', '', '%s::LineInit does not force the always-available outputs LATITUDE, '
+                     'AZIMUTH, LONG_UNROLL (bits %s) into _caps; it forces %s' % (cls, sorted(want), sorted(forced[cls])))
     res.analysed['relations'] = n
     return res, n
 
